@@ -12,23 +12,35 @@ SCALES = [(1.0, 0.0), (2.0 ** -20, 0.0), (2.0 ** 20, 3.0 * 2.0 ** 20)]   # exact
 
 
 def _replay_line(b):
+    import random
     out = []
-    for sc, off in SCALES:
-        for clause, detail in _replay_scaled(b, sc, off):
-            out.append((clause, dict(detail, scale=sc, offset=off)))
-        if out:
-            break
+    n = len(b["pts"])
+    perms = [None]
+    if b["mode"] == "graham":        # the input ORDER of a point set is arbitrary: also replay a permutation of it
+        perm = list(range(n))
+        random.Random(hash(str(b["pts"])) & 0xffff).shuffle(perm)
+        perms.append(perm)
+    for perm in perms:
+        for sc, off in (SCALES if perm is None else SCALES[:1]):
+            for clause, detail in _replay_scaled(b, sc, off, perm):
+                out.append((clause, dict(detail, scale=sc, offset=off, order=perm)))
+            if out:
+                return out
     return out
 
 
-def _replay_scaled(b, sc, off):
+def _replay_scaled(b, sc, off, perm=None):
     import kneeliverse.convex_hull as ch
     bad = []
     P = np.array(b["pts"], float) * sc + off
+    if perm is not None:
+        P = P[perm]
     mode = b["mode"]
     fn = {"lower": ch.graham_scan_lower, "upper": ch.graham_scan_upper, "graham": ch.graham_scan}[mode]
     try:
         got = [int(v) for v in np.asarray(fn(P)).tolist()]
+        if perm is not None:
+            got = [perm[g] if 0 <= g < len(perm) else -1 for g in got]     # back to the generator's indices
     except Exception as ex:
         return [("completes", {"mode": mode, "raised": repr(ex)[:200]})]
     exp = list(b["result"])
@@ -52,7 +64,8 @@ def _replay_scaled(b, sc, off):
             rot_ok = False
             if sorted(got) == sorted(exp):
                 k = exp.index(got[0]) if got[0] in exp else -1
-                alt = min(range(len(P)), key=lambda i: (P[i][1], P[i][0]))
+                Q = np.array(b["pts"], float)
+                alt = min(range(len(Q)), key=lambda i: (Q[i][1], Q[i][0]))
                 rot_ok = k >= 0 and exp[k:] + exp[:k] == got and got[0] == alt
             if not rot_ok:
                 bad.append(("graham-exact-general-position", {"got": got, "expected": exp}))
